@@ -78,7 +78,7 @@ Definition cfg_ok (o : soptions) (logical : N) : Prop :=
   so_maxn o <= 4096 /\ so_maxp o <= 4096 /\ so_maxd o <= 4096 /\ known_logical logical = true.
 
 Lemma InvT_init size : 1 <= size -> InvT (lenc_init size) (repeat None (N.to_nat size)) 0.
-Proof. intros H. unfold InvT. exact (inv_init size H). Qed.
+Proof. intros H. unfold InvT. split; [exact (inv_init size H)|apply conv_init]. Qed.
 
 Lemma JS_init maxn maxp maxd (ss : sstate) :
   8 <= maxn ->
